@@ -6,6 +6,7 @@ CONSTANTS
   Configs = {1}
   MaxList = 1
   GenMode = FALSE
-  SetAll = FALSE
+  Wide = FALSE
+  DEV_SortedIdLists = FALSE
   DEV_SpellingInEq = TRUE
 INVARIANT LawRoundTripEqual
